@@ -5,7 +5,7 @@ import splitcommon as SC
 ENGINE = "split"
 RULE = ("stream G: seeded random derivations of the dialect grammar of DESIGN.md section 3 (whitespace kinds incl. CRLF, brace nesting "
         "0-4, quoted / braced / bare pieces, '#' concatenations, escaped delimiters, trailing commas, @a{k} forms) with constructive "
-        "ground truth; three-way comparison implementation = model = ground truth. distinct = distinct document text; non-trivial = "
+        "ground truth; three-way comparison implementation = model = ground truth, and the same derivations sent as ASTs of the Coq grammar (Model/Grammar.v): Coq's render = generator text, Coq's expected = implementation's blocks, wf_doc_b = true. distinct = distinct document text; non-trivial = "
         "at least two blocks or an entry with at least two fields")
 TRUSTED = ["the ground truth is produced by the generator (harness/gens_split.py) from the derivation, not by parsing"]
 ASSUMPTIONS = ["documents outside the dialect (boundaries B1-B5 of DESIGN.md section 3) are not claimed by this property"]
@@ -16,15 +16,31 @@ def generate(rng, tier):
     n = 1500 if tier == "quick" else 40000
     for i in range(n):
         depth = rng.randint(0, 4)
-        text, items = G.gen_doc(rng, max_items=rng.choice([1, 3, 8, 12]), depth=depth)
+        text, items, ast = G.gen_doc(rng, max_items=rng.choice([1, 3, 8, 12]), depth=depth, with_ast=True)
         if not SC.doc_is_nodup(items):
             continue
         cases.append({"stream": "G", "input": {"text": text, "items": items}})
+        # the same derivation as an AST of the Coq grammar: Coq's render / expected / wf_doc_b against the
+        # generator's text and the implementation's blocks
+        cases.append({"stream": "G-ast", "input": {"text": text, "items": items, "ast": ast}})
     return cases
 
 
 def impl(case):
     text, items = case["input"]["text"], case["input"]["items"]
+    if "ast" in case["input"]:
+        import enc, implutil
+        r = SC.split_impl(text)
+        if r[0] == "exc":
+            return {"sx_in": [133, case["input"]["ast"]], "sx_out": implutil.r_exc(6), "oracle": {"ok": False, "detail": "parse raised"},
+                    "nontrivial": True}
+        # split_raw level: a duplicate-free document has no duplicate wrappers, so library blocks = raw blocks
+        out = [enc.enc_str(text), [enc.enc_block(b) for b in r[1].blocks], 1]
+        rec = {"sx_in": [133, case["input"]["ast"]], "sx_out": implutil.r_ok(out), "key": "ast:" + (text if len(text) < 300 else str(hash(text))),
+               "nontrivial": len(items) >= 2, "tags": ["ast"], "summary": SC.summary(r)}
+        if not SC.lower_ok(text):
+            rec["skip"] = True
+        return rec
     rec, r = SC.base_record(text)
     if r[0] == "exc":
         rec["oracle"] = {"ok": False, "detail": "parse raised " + r[2]}
